@@ -334,6 +334,21 @@ impl Session {
                 self.slots.insert(dst.parse().unwrap(), new);
                 "ok".into()
             },
+            ["clonefrom", src, dst] => {
+                // `dst.clone_from(&src)`: the allocation-reusing form must leave what `dst = src.clone()` leaves
+                let (si, di): (usize, usize) = (src.parse().unwrap(), dst.parse().unwrap());
+                let source = match self.slots.get(&si) {
+                    Some(Slot::Hm(c)) => c.clone(),
+                    _ => return "bad-op".into(),
+                };
+                match self.slots.get_mut(&di) {
+                    Some(Slot::Hm(d)) => {
+                        d.clone_from(&source);
+                        "ok".into()
+                    },
+                    _ => "bad-op".into(),
+                }
+            },
             ["dump", slot] => {
                 fn dump<C: IterateVariablesContext<NumericTypes = DefaultNumericTypes>>(c: &C) -> String {
                     let mut vars: Vec<String> = c
@@ -452,6 +467,20 @@ impl Session {
                         iter_mut_apply(&mut m, k, &mut |s: &mut String| seen.push(hex(s.as_bytes())));
                         parts.push(format!("{}/{}", ro.join(","), seen.join(",")));
                     }
+                    // internal iteration after a partial external one: next(), then for_each over the rest; skip(1).last()
+                    let mut it = n.iter_identifiers();
+                    let first = it.next().map(|s| hex(s.as_bytes())).unwrap_or_default();
+                    let mut rest = Vec::new();
+                    it.for_each(|s| rest.push(hex(s.as_bytes())));
+                    let last = n.iter_variable_identifiers().skip(1).last().map(|s| hex(s.as_bytes())).unwrap_or_default();
+                    let mut it2 = n.iter_read_variable_identifiers();
+                    let _ = it2.next();
+                    let _ = it2.next();
+                    let folded: Vec<String> = it2.fold(Vec::new(), |mut acc, s| {
+                        acc.push(hex(s.as_bytes()));
+                        acc
+                    });
+                    parts.push(format!("{};{};{};{}", first, rest.join(","), last, folded.join(",")));
                     // exercise Display/Debug of the tree (C01)
                     let _ = format!("{:?}", n);
                     let _ = format!("{}", n);
